@@ -1,11 +1,16 @@
 //! Suite registry: one module per correspondence suite; `lookup` maps a suite name to its runner.
 pub mod curve;
 pub mod panic;
+pub mod tx;
 
 pub fn lookup(name: &str) -> Option<fn(&str) -> String> {
     Some(match name {
         "panic" => panic::run,
         "curve" => curve::run,
+        "txconsts" => tx::run_consts,
+        "txval" => tx::run_val,
+        "txsim" => tx::run_sim,
+        "txend" => tx::run_end,
         _ => return None,
     })
 }
